@@ -16,12 +16,12 @@ run_demo() {
   esac
 }
 echo "== demo on unchanged code" >>"$LOG"; run_demo; A=$?
-if ! git -C "$WT" apply "$PATCH" 2>>"$LOG"; then echo "$NAME: PATCH DOES NOT APPLY"; git -C /repo worktree remove --force "$WT"; exit 1; fi
+if ! git -C "$WT" apply "$PATCH" 2>>"$LOG" && ! git -C "$WT" apply -3 "$PATCH" 2>>"$LOG"; then echo "$NAME: PATCH DOES NOT APPLY"; git -C /repo worktree remove --force "$WT"; exit 1; fi
 echo "== demo with the change" >>"$LOG"; run_demo; B=$?
 echo "== existing suite with the change" >>"$LOG"
 (cd "$WT" && CARGO_TARGET_DIR="$TD" cargo test --offline --workspace --no-fail-fast 2>&1 | grep -E "^test .*FAILED|^test result|error(\[|:)" >>"$LOG")
-FAILS=$(grep -E "^test .*FAILED" "$LOG" | grep -v test_repair_auth_unauth | grep -v seed_demo | wc -l)
-BUILD_ERR=$(grep -cE "^error" "$LOG")
+FAILS=$(sed -n '/== existing suite with the change/,$p' "$LOG" | grep -E '^test [^ ]+ \.\.\. FAILED' | grep -v test_repair_auth_unauth | wc -l)
+BUILD_ERR=$(grep -cE '^error(\[|: could not compile)' "$LOG")
 git -C /repo worktree remove --force "$WT"
 V="demo_unchanged_rc=$A demo_changed_rc=$B suite_failures=$FAILS build_errors=$BUILD_ERR"
 echo "$V" >> "$LOG"
